@@ -431,7 +431,7 @@ pub fn spec() -> Spec<Case> {
         id: "C09",
         level: "exploration",
         rule: "generated histories (<=22 ops: AI/human work, divergent branches, real merges, renames with and without an edit in the same commit, rebases/cherry-picks/amends) followed by 2-5 blame queries: file x revision (tip or detached at HEAD~1/2) x {-L ranges (0-2, disjoint, inside the file), -w, --ignore-rev <sha>, --ignore-revs-file <f>} x every format (default, --show-prompt, --json, --porcelain, --line-porcelain, --incremental). Oracle: an independent overlay - real git's `blame --line-porcelain` with the same options gives (commit, original line, path in that commit) per final line, the commit's note (own parser) gives the session for that path and line - compared with --json and with the author column of the human-readable formats; porcelain-style formats must name the same commit per line as git's own output in that format. non-trivial = query over lines from >=2 commits, a renamed file, or any option; distinct by case hash".into(),
-        cases_quick: 140,
+        cases_quick: 224,
         cases_thorough: 2500,
         shrink_iters: 30,
         workers: 14,
